@@ -73,7 +73,7 @@ func (c *cgen) node(depth int) *cnode {
 		return c.eff()
 	}
 	kinds := []string{"eff", "boom", "begin", "plus", "let", "letseq", "newscope", "cond", "callfn", "lambda",
-		"apply", "mapf", "eval", "lazy", "loop", "and", "array", "list", "rec", "rectail", "hashlit", "infix"}
+		"apply", "mapf", "eval", "lazy", "lazykeep", "loop", "and", "array", "list", "rec", "rectail", "hashlit", "infix"}
 	k := kinds[r.Intn(len(kinds))]
 	c.g.Count("node " + k)
 	switch k {
@@ -101,6 +101,10 @@ func (c *cgen) node(depth int) *cnode {
 		return &cnode{kind: k, kids: []*cnode{c.node(depth - 1)}}
 	case "lazy":
 		return &cnode{kind: k, id: r.Intn(nGlobals), val: r.Intn(nGlobals), kids: []*cnode{c.node(depth - 1)}}
+	case "lazykeep":
+		// the argument is closed over the globals (effects and failure sites only) so that the
+		// twin can state what the kept thunk denotes
+		return &cnode{kind: k, id: r.Intn(2), kids: c.seq(0, 1)}
 	case "rec", "rectail":
 		c.nextSite++
 		return &cnode{kind: k, n: 1 + r.Intn(4), id: c.nextSite, val: r.Intn(nGlobals)}
@@ -249,6 +253,8 @@ func (r *crender) render(n *cnode) string {
 		return "(eval (quote " + r.render(n.kids[0]) + "))"
 	case "lazy":
 		return fmt.Sprintf("(lz%d%d %s)", n.id, n.val, r.render(n.kids[0]))
+	case "lazykeep":
+		return fmt.Sprintf("(lzk%d (begin %s))", n.id, r.many(n.kids))
 	case "rec":
 		return fmt.Sprintf("(rec%d_%d %d)", n.id, n.val, n.n)
 	case "rectail":
@@ -264,6 +270,11 @@ func (r *crender) setup(root *cnode) string {
 		fmt.Fprintf(&b, "(def g%d 0) ", i)
 	}
 	b.WriteString("(defn farity [] 0) ")
+	// a lazy argument that outlives its call: kept in a closure stored in a global, forced in
+	// the call and again by the follow-up battery of a LATER evaluation
+	for i := 0; i < 2; i++ {
+		fmt.Fprintf(&b, "(def kept%d (fn [] 0)) (defn lzk%d [#a] (begin (set kept%d (fn [] (force #a))) (kept%d))) ", i, i, i, i)
+	}
 	b.WriteString("(defmac mfail [s] (begin (boom s) 0)) ")
 	for i, body := range r.c.funcs {
 		fmt.Fprintf(&b, "(defn f%d [] %s) ", i, r.render(body))
@@ -313,6 +324,7 @@ type cprefix struct {
 	failCount int
 	seen      int // executions of failSite so far
 	full      *crender
+	failR     *crender // renders the failing site the way the program text has it (lazykeep)
 }
 
 // returns (text, failedInside)
@@ -391,6 +403,25 @@ func (p *cprefix) pre(n *cnode) (string, bool) {
 			return wrapBegin([]string{pre, a}), true
 		}
 		return wrapBegin([]string{pre, a, fmt.Sprintf("(set g%d 22)", n.val)}), false
+	case "lazykeep":
+		// the thunk is kept first; then its expression runs. Forced to the end it is memoised
+		// (the kept closure then denotes the value); cut short by the failure it is not (the
+		// kept closure denotes the whole expression, evaluated again when called).
+		ss, hit := p.many(n.kids)
+		if hit {
+			fr := p.failR
+			if fr == nil {
+				fr = p.full
+			}
+			keep := fmt.Sprintf("(set kept%d (fn [] (begin %s)))", n.id, fr.many(n.kids))
+			return wrapBegin(append([]string{keep}, ss...)), true
+		}
+		last := n.kids[len(n.kids)-1]
+		val := 0
+		if last.kind == "eff" {
+			val = last.val
+		}
+		return wrapBegin(append(ss, fmt.Sprintf("(set kept%d (fn [] %d))", n.id, val))), false
 	case "rec", "rectail":
 		var ss []string
 		for i := 0; i < n.n; i++ {
@@ -420,6 +451,18 @@ func pathTo(n *cnode, site int) []*cnode {
 		}
 	}
 	return nil
+}
+
+func hasKind(n *cnode, c *cgen, kind string) bool {
+	if n.kind == kind {
+		return true
+	}
+	for _, k := range n.kids {
+		if hasKind(k, c, kind) {
+			return true
+		}
+	}
+	return false
 }
 
 func hexs(s string) string {
@@ -480,7 +523,7 @@ func containGen(g *Gen) {
 				g.Count("kind " + kind)
 				return
 			default:
-				p := &cprefix{c: c, failSite: ev.site, failCount: ev.count, full: &crender{c: c}}
+				p := &cprefix{c: c, failSite: ev.site, failCount: ev.count, full: &crender{c: c}, failR: r}
 				prefix, _ = p.pre(root)
 			}
 			g.Emit("%s %d %d 0,1,0 %s %s %s", kind, ev.site, ev.count, hexs(setup), hexs(prog+" "), hexs(prefix+" "))
@@ -530,7 +573,7 @@ func containGen(g *Gen) {
 				rootFirsts = append(rootFirsts, ev)
 			}
 		}
-		if len(rootFirsts) > 0 {
+		if len(rootFirsts) > 0 && !hasKind(root, c, "lazykeep") {
 			for _, kind := range []string{"loadcompile", "macroexp"} {
 				emit(kind, rootFirsts[g.Rng.Intn(len(rootFirsts))])
 			}
@@ -540,6 +583,8 @@ func containGen(g *Gen) {
 }
 
 var containFollowups = []string{
+	"(list g0 g1 g2 g3 g4 g5) ",
+	"(list (kept0) (kept1)) ",
 	"(list g0 g1 g2 g3 g4 g5) ",
 	"(+ 1 2) ",
 	"(defn zzfu [x] (* x 2)) (zzfu 21) ",
